@@ -235,6 +235,61 @@ def ledger_pass(prop, tier, seed):
     return violations, stats
 
 
+JOIN_INFO = {}
+
+
+def join_pass(tier, seed):
+    """Change sets of a PLAIN amount type (`ChangeSet<i64>`, no destructor) as members of statically typed joins — shared,
+    mutable and by-value, after the set was used, cleared and refilled in scrambled order: the join domain's harness and
+    its independent spec monitor (C06). A rejection of a join that has a change-set member is a C16 verdict too."""
+    import dom_join, re
+    ok, _ = vlib.build_harness([dom_join.BIN_H3])
+    if not ok:
+        return 0
+    binp = vlib.hbin(dom_join.BIN_H3)
+    n = 2 if tier == "quick" else 12
+    jobs = [(binp, f"cs-join{i}", ["gen", str(seed * 1000 + 900 + i), "60" if tier == "quick" else "400", "small"], 600) for i in range(n)]
+    with ThreadPoolExecutor(max_workers=4) as ex:
+        results = list(ex.map(dom_join.run_one, jobs))
+    cs_member = re.compile(r"\b[smc\?]*[smc]1[45]\b")
+    violations = 0
+    ops_seen = 0
+    for r in results:
+        ops_seen += int(r["stats"].get("lines", 0)) if isinstance(r["stats"].get("lines", 0), int) else 0
+        for m in r["mon"]:
+            op = vlib.field(m, "op") or ""
+            if not cs_member.search(op):
+                continue
+            cid = vlib.field(m, "case")
+            keep = os.path.join(vlib.TMP, f"csjoin-{os.getpid()}.txt")
+            dom_join.pipe([binp] + r["tail"], keep=keep, timeout=600)
+            lines = []
+            if os.path.exists(keep):
+                on = False
+                for line in open(keep):
+                    line = line.rstrip("\n")
+                    if line.startswith("case "):
+                        on = (line.split()[1] == cid)
+                    elif on and line and not line.startswith("#"):
+                        lines.append(line.split(" => ")[0])
+                os.unlink(keep)
+            # keep the set-up lines and the rejected join only
+            opl = op.strip("[]")
+            lines = [x for x in lines if not x.startswith("join ") or x.strip() == opl.strip()]
+            path = vlib.write_replay(PROP, f"join-{seed}-{violations}",
+                                     [f"property {PROP}: {WHAT}",
+                                      f"a join with a change-set member is rejected by the join domain's spec monitor: {m[:700]}",
+                                      f"found by: h_join_h3 {' '.join(r['tail'])} (case {cid})",
+                                      f"replay: bin/check {PROP} --replay <this file>   (join domain)"], lines, "join")
+            print(f"VIOLATION property={PROP} replay={path}")
+            violations += 1
+            break
+        if violations >= 2:
+            break
+    JOIN_INFO.update({"join_domain_runs": len(results), "join_domain_lines": ops_seen})
+    return violations
+
+
 def check(prop, tier, seed, t0):
     assert prop == PROP
     lean = vlib.build_lean(prop, thorough=(tier == "thorough"))
@@ -253,6 +308,7 @@ def check(prop, tier, seed, t0):
         with ThreadPoolExecutor(max_workers=8) as ex:
             results = list(ex.map(run_one, plan(tier, seed)))
         violations += report_failures(tier, seed, results)
+        violations += join_pass(tier, seed)
     stats = {}
     for r in results:
         for k, v in r["stats"].items():
@@ -305,6 +361,7 @@ def check(prop, tier, seed, t0):
                                                      "items", "yielded", "clears", "destroyed", "gen_conflicts", "stale_pairings", "reused_idx", "max_index")},
         "streams": by_stream,
         "runs": [r["label"] for r in results],
+        "plain_amount_joins": JOIN_INFO,
         "samples": samples,
         "exhaustive": False,
     }
@@ -322,6 +379,9 @@ def check(prop, tier, seed, t0):
 
 
 def replay(prop, path):
+    if "# domain join" in open(path).read():
+        import dom_join
+        return dom_join.replay("C06", path)
     ok, blog = vlib.build_harness([BIN])
     if not ok:
         print(blog); return 2
